@@ -215,6 +215,8 @@ theorem openLoad_sub (m : Mem) : DerSub m.openLoad m :=
   DerSub.of_fields (fun _ h => by cases h) (fun _ h => by cases h) (fun _ h => HasDer.ofPQueue h)
     (fun _ h => HasDer.ofPQueue h) (fun _ hc _ h => HasDer.ofPCards hc h)
 
+theorem persistSketch_sub (m : Mem) : DerSub m.persistSketch m := SameAll.sub ⟨rfl, rfl, rfl, rfl, rfl⟩
+
 theorem recoverWal_sub (m : Mem) (ft : Nat) : DerSub (m.recoverWal ft) m := by
   unfold Mem.recoverWal
   split
@@ -223,7 +225,7 @@ theorem recoverWal_sub (m : Mem) (ft : Nat) : DerSub (m.recoverWal ft) m := by
     · exact DerSub.refl m
     · rename_i ma δ h1
       have hd := (applyRecords_all m m.pending true ma δ h1).sub
-      refine DerSub.trans (DerSub.trans (checkpoint_sub _) ?_) hd
+      refine DerSub.trans (DerSub.trans (checkpoint_sub _) (DerSub.trans (persistSketch_sub _) ?_)) hd
       split
       · exact rebuildIndexes_sub _ _ _ _
       · exact flushTantivy_sub _ _
@@ -243,7 +245,7 @@ theorem loadTracks_sub (m : Mem) : DerSub m.loadTracks m := by
     · exact HasDer.ofRecs hx'
 
 theorem openFrom_sub (m : Mem) (ft : Nat) : DerSub (m.openFrom ft) m :=
-  DerSub.trans (loadTracks_sub _) (DerSub.trans (recoverWal_sub _ ft) (openLoad_sub m))
+  DerSub.trans (recoverWal_sub _ ft) (DerSub.trans (loadTracks_sub _) (openLoad_sub m))
 
 theorem reopen_sub (m : Mem) (a b : Nat) : DerSub (m.reopen a b).1 m :=
   DerSub.trans (openFrom_sub _ b) (dropHandle_sub m a)
